@@ -4,13 +4,16 @@
   cellch   : Children() = CellFromCellID(child) field by field, bit-exact (model AND implementation)
   cellpt   : ContainsPoint / Distance / BoundaryDistance / MaxDistance: soft-float model (bit-exact) and
              the exact judge of Oracle.C12Judge
-  celledge : DistanceToEdge / MaxDistanceToEdge against the exact judge
-  cellcell : DistanceToCell / MaxDistanceToCell against the exact judge
-  cellbound: RectBound / CapBound contain sample points that are exactly in the cell
+  celledge : DistanceToEdge / MaxDistanceToEdge: soft-float model `S2.CellEdgeM` (bit-exact) and the exact judge
+  cellcell : DistanceToCell / MaxDistanceToCell: soft-float model `S2.CellEdgeM` (bit-exact) and the exact judge
+  cellbound: RectBound / CapBound contain sample points that are exactly in the cell; CapBound bit-exact against the
+             model S2.CellM.capBound (S2/CellCap.lean)
 -/
 import Oracle.Basic
 import Oracle.C12Judge
 import S2.CellM
+import S2.CellCap
+import S2.CellEdgeM
 namespace Oracle.C12
 open Oracle S2 S2.CellID S2.Hilbert S2.STUV S2.CellM Oracle.C12J
 
@@ -77,9 +80,17 @@ def handleDebug (op : String) (args : List String) : Option String :=
     let id ← parseU64? a
     let pa ← parseV3? ax ay az
     let pb ← parseV3? bx by' bz
-    let q := quadOfCell (cellFromCellID id)
+    let c := cellFromCellID id
+    let q := quadOfCell c
     let va := vecOf pa; let vb := vecOf pb
-    pure s!"info meets={q.meetsSeg va vb} meetsNeg={q.meetsSeg va.neg vb.neg} dist={showIv (q.segDist va vb)} max={showIv (q.segMaxDist va vb)} maxA={showIv (q.maxDist va)} maxB={showIv (q.maxDist vb)}"
+    -- which return of the float model `CellEdgeM.distanceToEdge` is taken, for (a, b) and for the antipodal edge
+    let branch (a b : V3) : String :=
+      if F64.feq (minChord (distance c a) [distance c b]) fzero then "endpoint-in-cell"
+      else if CellEdgeM.anyCrossing (Crosser.initChain a b (vertex c 3)) (CellEdgeM.vertices c) then "crossing"
+      else "vertex-chain"
+    let maxBranch : String :=
+      if F64.le (maxChord (maxDistance c pa) [maxDistance c pb]) F64.two then "endpoints" else "antipodal-" ++ branch (pa.mul negOne) (pb.mul negOne)
+    pure s!"info branch={branch pa pb} maxBranch={maxBranch} meets={q.meetsSeg va vb} meetsNeg={q.meetsSeg va.neg vb.neg} dist={showIv (q.segDist va vb)} max={showIv (q.segMaxDist va vb)} maxA={showIv (q.maxDist va)} maxB={showIv (q.maxDist vb)}"
   | "cellcellx", [a, b] => do
     let id ← parseU64? a
     let id2 ← parseU64? b
@@ -147,8 +158,10 @@ def handle (op : String) (args res : List String) : Option String :=
             cmpClause "distance-to-edge" gd (q.segDist va vb),
             cmpClause "max-distance-to-edge" gm (q.segMaxDist va vb)])).getD (some "unparseable-impl-output")
       | _ => some "impl-output-arity"
-    -- no float model of DistanceToEdge (robust cross product, edge crosser): the judge decides
-    pure (verdictP res res prop)
+    -- float model S2.CellEdgeM (edge crosser, UpdateMinDistance): compared bit by bit; the judge decides the property
+    let c := cellFromCellID id
+    let model := [showChord (CellEdgeM.distanceToEdge c pa pb), showChord (CellEdgeM.maxDistanceToEdge c pa pb)]
+    pure (verdictP model (res.map canonChord) prop)
   | "cellcell", [a, b] => do
     let id ← parseU64? a
     let id2 ← parseU64? b
@@ -162,7 +175,10 @@ def handle (op : String) (args res : List String) : Option String :=
             cmpClause "distance-to-cell" gd (q.quadDist r),
             cmpClause "max-distance-to-cell" gm (q.quadMaxDist r)])).getD (some "unparseable-impl-output")
       | _ => some "impl-output-arity"
-    pure (verdictP res res prop)
+    let c := cellFromCellID id
+    let d := cellFromCellID id2
+    let model := [showChord (CellEdgeM.distanceToCell c d), showChord (CellEdgeM.maxDistanceToCell c d)]
+    pure (verdictP model (res.map canonChord) prop)
   | "cellbound", a :: samples => do
     let id ← parseU64? a
     if !isValid id then pure "bad cellbound-invalid-id" else
@@ -175,6 +191,10 @@ def handle (op : String) (args res : List String) : Option String :=
       let ctr ← parseV3? cx cy cz
       let rad ← parseF64? rad
       if rest.length * 3 != samples.length * 7 then pure "bad cellbound-sample-arity" else
+      -- the bit-exact model of Cell.CapBound (S2/CellCap.lean; `capSlackChord` = Go's ChordAngleFromAngle(6·2^-52))
+      let mcap := capBound c capSlackChord
+      if !(mcap.center == ctr && mcap.radius == rad) then
+        pure ("diff cap-bound " ++ " ".intercalate (showV3 mcap.center ++ [showF64 mcap.radius])) else
       let rec go (ss rs : List String) (fuel : Nat) : Option String :=
         match fuel, ss, rs with
         | fuel + 1, u :: v :: n :: ss', px :: py :: pz :: lat :: lng :: rh :: ch :: rs' =>
